@@ -16,7 +16,7 @@ use std::time::Duration;
 pub const PROP: PropDef = PropDef {
     id: "C06",
     parts,
-    rule: "every word of per-attempt outcomes the flow can consume (alphabet of 17 outcomes incl. unauthenticated answers with success and error statuses, length <= 3) x stored poll interval {none, in force} x CUP {off,on} x jitter draw per wait x delivery outcome of each event report; plus pings during the reboot wait with each outcome; non-trivial = at least one failed attempt or undelivered report; distinct = distinct normalised observation logs",
+    rule: "every word of per-attempt outcomes the flow can consume (alphabet of 18 outcomes incl. unauthenticated answers with success and error statuses, length <= 3) x stored poll interval {none, in force} x CUP {off,on} x jitter draw per wait x delivery outcome of each event report; plus pings during the reboot wait with each outcome; non-trivial = at least one failed attempt or undelivered report; distinct = distinct normalised observation logs",
     assumptions: &[
         "the back-off draw is owned through the verif_hooks seam (rand::random::<u64>() replaced by the injected value)",
         "requests-per-check count for a check whose request could not even be constructed is unspecified (only 'no request, no wait' is checked)",
@@ -37,6 +37,8 @@ enum A {
     S500,
     S404Retry,
     S500Retry,
+    /// HTTP 500 whose X-Retry-After does not fit 32 bits (capped to a day: an interval is in force)
+    S500RetryHuge,
     OkRetryAfter,
     Unparseable,
     Forged,
@@ -56,6 +58,7 @@ const ALPHA: &[A] = &[
     A::S500,
     A::S404Retry,
     A::S500Retry,
+    A::S500RetryHuge,
     A::OkRetryAfter,
     A::Unparseable,
     A::Forged,
@@ -108,6 +111,7 @@ impl Director for D {
                     A::S500 => HttpAns::Resp(RespSpec::ok(doc(true)).status(500)),
                     A::S404Retry => HttpAns::Resp(RespSpec::ok(b"nf".to_vec()).status(404).header("x-retry-after", b"77")),
                     A::S500Retry => HttpAns::Resp(RespSpec::ok(vec![]).status(500).header("X-Retry-After", b"88")),
+                    A::S500RetryHuge => HttpAns::Resp(RespSpec::ok(vec![]).status(500).header("X-Retry-After", b"4294967296")),
                     A::OkRetryAfter => HttpAns::Resp(RespSpec::ok(doc(false)).header("X-Retry-After", b"99")),
                     A::Unparseable => HttpAns::Resp(RespSpec::ok(b"<html>".to_vec())),
                     A::Forged => HttpAns::Resp(RespSpec::ok(doc(true)).etag(EtagSpec::Key(2))),
